@@ -358,10 +358,21 @@ func (f *Formatter) renderPreContent(n *html.Node, buf *strings.Builder) {
 	for c := n.FirstChild; c != nil; c = c.NextSibling {
 		switch c.Type {
 		case html.TextNode:
-			buf.WriteString(escapeText(c.Data))
+			if isRawTextElement(n.Data) {
+				// the parser did not decode the text of a <script>, <style>, <xmp> ... inside
+				// the block: escaping it would change it with every pass
+				buf.WriteString(c.Data)
+			} else {
+				buf.WriteString(escapeText(c.Data))
+			}
 		case html.ElementNode:
 			buf.WriteString(f.renderOpenTag(c))
 			if !isVoidElement(c.DataAtom) {
+				// a nested <pre>, <textarea> or <listing> loses a newline after its start
+				// tag, like the outer one
+				if t := c.FirstChild; (c.Data == "pre" || c.Data == "textarea" || c.Data == "listing") && t != nil && t.Type == html.TextNode && strings.HasPrefix(t.Data, "\n") {
+					buf.WriteString("\n")
+				}
 				f.renderPreContent(c, buf)
 				buf.WriteString(f.renderCloseTag(c))
 			}
